@@ -105,14 +105,20 @@ Fixpoint h_run_v (rk : hred) (p : hparam) (lam : R) (st : hstate)
   | s :: tl => let r := h_step rk p lam (fst s) st (snd s) in r :: h_run_v rk p lam (fst r) tl
   end.
 
-(* LinearHomeostasis.forward(target) over the cells of ONE trainer (hand-transcribed: homeostasis.py:223-238): the loop
-   `for ... in zip(self.cells_, self): if target is None: target = state.target` REBINDS the argument, so once a cell's
-   default has been read it is what every later cell sees.  [dflts]: the cells' state.target in registration order
-   (None = no default; the RuntimeError for "no target at all" is the None of the result). *)
-Fixpoint targets_used (cur : option R) (dflts : list (option R)) : list (option R) :=
+(* LinearHomeostasis.forward(target) over the cells of ONE trainer (hand-transcribed: homeostasis.py:223-240, after the
+   repair 6f3edbb): per cell `cell_target = state.target if target is None else target`, RuntimeError when both are None
+   (the None of the result).  [dflts]: the cells' state.target in registration order (None = no default). *)
+Fixpoint targets_used (fwd : option R) (dflts : list (option R)) : list (option R) :=
   match dflts with
   | [] => []
-  | d :: tl => let cur' := match cur with Some _ => cur | None => d end in cur' :: targets_used cur' tl
+  | d :: tl => (match fwd with None => d | Some _ => fwd end) :: targets_used fwd tl
+  end.
+(* the loop as it was BEFORE the repair: `if target is None: target = state.target` rebound the argument, so once a cell's
+   default had been read it was what every later cell saw (kept as a refuted variant) *)
+Fixpoint targets_used_old (cur : option R) (dflts : list (option R)) : list (option R) :=
+  match dflts with
+  | [] => []
+  | d :: tl => let cur' := match cur with Some _ => cur | None => d end in cur' :: targets_used_old cur' tl
   end.
 (* documented: the explicit target when given, else the cell's own default *)
 Definition targets_doc (fwd : option R) (dflts : list (option R)) : list (option R) :=
